@@ -76,6 +76,9 @@ type scenario struct {
 	Name  string     `json:"name"`
 	Fracs []fracSpec `json:"fracs"`
 	Reqs  []request  `json:"reqs"`
+	// DocBlockSize: SealParams.DocBlockSize of the store (0 = the default 4 MiB); small values give sealed
+	// fractions many docs blocks
+	DocBlockSize int `json:"doc_block_size,omitempty"`
 }
 
 // docBytes is the document ingested under (mid, rid) with the given size (>= 2): valid JSON, content unique per
@@ -134,6 +137,7 @@ func newStore(sc *scenario) (*store, error) {
 		TotalSize:    1 << 42,
 		ShouldReplay: false,
 		DataDir:      dir,
+		SealParams:   frac.SealParams{DocBlockSize: sc.DocBlockSize},
 	})
 	if err := fm.Load(context.Background()); err != nil {
 		return nil, err
@@ -464,6 +468,38 @@ func genFracs(r *vh.RNG, k, docsPer int, sizes func() int, lastActive bool) []fr
 	return fs
 }
 
+// genBoundaryFrac: a sealed fraction of a little more than consts.IDsPerBlock documents in which one millisecond is shared
+// by a run of documents that straddles the ID-block boundary (LIDs IDsPerBlock-1 | IDsPerBlock): k documents with
+// later timestamps, then the run, then a tail.  Returns the fraction and the IDs of the run.
+func genBoundaryFrac(r *vh.RNG, base uint64) (fracSpec, []docSpec) {
+	f := fracSpec{Sealed: true}
+	run := 40 + r.Intn(200)
+	k := consts.IDsPerBlock - 1 - (1 + r.Intn(run-2)) // the run starts at LID k+1 <= IDsPerBlock-1 and ends after IDsPerBlock
+	tail := 5 + r.Intn(100)
+	shared := base + 1000
+	size := func() int { return 2 + r.Intn(12) }
+	for i := 0; i < k; i++ { // later than the shared millisecond: a handful per millisecond
+		f.Docs = append(f.Docs, docSpec{MID: shared + 1 + uint64(i/3), RID: uint64(1000 + 2*(i%3)), Size: size()})
+	}
+	var runDocs []docSpec
+	for i := 0; i < run; i++ {
+		d := docSpec{MID: shared, RID: uint64(1000 + 2*i), Size: size()}
+		runDocs = append(runDocs, d)
+		f.Docs = append(f.Docs, d)
+	}
+	for i := 0; i < tail; i++ {
+		f.Docs = append(f.Docs, docSpec{MID: shared - 1 - uint64(i/2), RID: uint64(1000 + 2*(i%2)), Size: size()})
+	}
+	// ingestion order is not ID order
+	p := r.Perm(len(f.Docs))
+	docs := make([]docSpec, len(f.Docs))
+	for a, b := range p {
+		docs[a] = f.Docs[b]
+	}
+	f.Docs = docs
+	return f, runDocs
+}
+
 func (f *fracSpec) borders() (from, to uint64) {
 	from, to = ^uint64(0), 0
 	for _, d := range f.Docs {
@@ -667,10 +703,40 @@ func genScenario(r *vh.RNG, name string, shape int, thorough bool) scenario {
 			rq.Class = "late-bulk-into-active " + rq.Class
 			sc.Reqs = append(sc.Reqs, rq)
 		}
+	case 6: // one millisecond shared by a run of documents across the ID-block boundary of a sealed fraction
+		bf, runDocs := genBoundaryFrac(r, 1_700_000_000_000)
+		sc.Fracs = []fracSpec{bf}
+		if r.Bool() {
+			sc.Fracs = append(sc.Fracs, genFracs(r, 1, 6, small, r.Bool())...)
+		}
+		for i := 0; i < 8; i++ {
+			n := 1
+			if i%2 == 1 {
+				n = 2 + r.Intn(30)
+			}
+			hint := -1
+			if i%4 >= 2 {
+				hint = 0
+			}
+			var ids []reqID
+			for _, pi := range r.Perm(len(runDocs))[:min(n, len(runDocs))] {
+				d := runDocs[pi]
+				ids = append(ids, reqID{MID: d.MID, RID: d.RID, Hint: hint})
+				if r.Intn(4) == 0 { // an absent neighbour inside the run
+					ids = append(ids, reqID{MID: d.MID, RID: d.RID + 1, Hint: hint})
+				}
+			}
+			sc.Reqs = append(sc.Reqs, request{Class: fmt.Sprintf("same-ms-run-across-id-block n=%s hints=%s", bucket(len(ids)), vh.B(hint >= 0)), IDs: ids})
+		}
+		rq := genRequest(r, sc.Fracs, 1500, 10, []string{"inside", "neighbour", "border-high", "above-all"}, false, orders[r.Intn(3)])
+		rq.Class = "same-ms-run-across-id-block " + rq.Class
+		sc.Reqs = append(sc.Reqs, rq)
 	case 4: // 100k IDs, mostly absent, over one mid-sized fraction pair
 		sc.Fracs = genFracs(r, 2, 3000, func() int { return 200 + r.Intn(200) }, false)
 		sc.Reqs = append(sc.Reqs, genRequest(r, sc.Fracs, 100000, 95, []string{"inside", "above-all", "below-all"}, false, "random"))
 	}
+	// sealed fractions with one docs block (default) or many (small DocBlockSize): several seals in one process
+	sc.DocBlockSize = []int{0, 64, 300, 2000}[r.Intn(4)]
 	return sc
 }
 
@@ -695,7 +761,7 @@ func classify(res string, stderr string, died, timeout bool) (site, class string
 }
 
 func scenarioLine(sc *scenario, only int) string {
-	c := scenario{Name: sc.Name, Fracs: sc.Fracs}
+	c := scenario{Name: sc.Name, Fracs: sc.Fracs, DocBlockSize: sc.DocBlockSize}
 	if only >= 0 {
 		c.Reqs = []request{sc.Reqs[only]}
 	} else {
@@ -716,6 +782,7 @@ func minimise(sc scenario, site, class string, budget int) scenario {
 		died := cr.died >= 0
 		s, k := classify(cr.res[0], cr.stderr, died, cr.timeout)
 		s, k = adjustLate(s, k, c.Reqs[0])
+		s, k = adjustPanic(s, k, c, c.Reqs[0])
 		return (died || (cr.res[0] != "ok" && cr.res[0] != "")) && s == site && k == class
 	}
 	with := func(ids []reqID, fracs []fracSpec) *scenario {
@@ -727,7 +794,7 @@ func minimise(sc scenario, site, class string, budget int) scenario {
 				}
 			}
 		}
-		return &scenario{Name: sc.Name, Fracs: fracs, Reqs: []request{{Class: sc.Reqs[0].Class, IDs: ids, Late: late}}}
+		return &scenario{Name: sc.Name, Fracs: fracs, DocBlockSize: sc.DocBlockSize, Reqs: []request{{Class: sc.Reqs[0].Class, IDs: ids, Late: late}}}
 	}
 	// 1. drop requested IDs
 	ids := sc.Reqs[0].IDs
@@ -896,8 +963,35 @@ func adjustLate(site, class string, r request) (string, string) {
 	return site, class
 }
 
+// adjustPanic: a recovered fraction panic is the sealed ID lookup's only when the request holds an ID below every ID
+// of a sealed fraction at that fraction's oldest timestamp; any other recovered panic gets its own signature.
+func adjustPanic(site, class string, sc *scenario, r request) (string, string) {
+	if class != "absent-id-below-all-stored" {
+		return site, class
+	}
+	for _, f := range sc.Fracs {
+		if !f.Sealed {
+			continue
+		}
+		from, _ := f.borders()
+		minRID := ^uint64(0)
+		for _, d := range f.Docs {
+			if d.MID == from {
+				minRID = min(minRID, d.RID)
+			}
+		}
+		for _, id := range r.IDs {
+			if id.MID == from && id.RID < minRID {
+				return site, class
+			}
+		}
+	}
+	return "fracmanager/fetcher.go:fracFetch", "fraction-fetch-panicked"
+}
+
 func reportViolation(rep *vh.Report, sc *scenario, j int, site, class, what string, reported map[string]bool, budget int) {
 	site, class = adjustLate(site, class, sc.Reqs[j])
+	site, class = adjustPanic(site, class, sc, sc.Reqs[j])
 	key := site + "|" + class
 	if reported[key] {
 		return
@@ -1009,10 +1103,14 @@ func sealedChannels(o vh.Opts, r *vh.RNG, rep *vh.Report) (*vh.Channel, *vh.Chan
 	for s := 0; s < nStores; s++ {
 		var sc scenario
 		docsPer := []int{1, 3, 12, 40}[r.Intn(4)]
-		if s == 0 {
+		if s == 1 {
 			docsPer = 5000 // several ID blocks (IDsPerBlock = 4096)
 		}
 		sc.Fracs = genFracs(r, 1+r.Intn(3), docsPer, func() int { return 2 + r.Intn(30) }, false)
+		if s == 0 { // one millisecond shared across the ID-block boundary
+			bf, _ := genBoundaryFrac(r, 1_700_000_000_000)
+			sc.Fracs = []fracSpec{bf}
+		}
 		st, err := newStore(&sc)
 		if err != nil {
 			fl.Error = "store: " + err.Error()
@@ -1036,21 +1134,33 @@ func sealedChannels(o vh.Opts, r *vh.RNG, rep *vh.Report) (*vh.Channel, *vh.Chan
 				id := table[l]
 				cands = append(cands, id, seq.ID{MID: id.MID, RID: id.RID + 1}, seq.ID{MID: id.MID, RID: id.RID - 1})
 			}
+			var borderCands []seq.ID
+			if len(table) > consts.IDsPerBlock+8 { // both sides of the ID-block boundary
+				for l := consts.IDsPerBlock - 8; l < consts.IDsPerBlock+8; l++ {
+					id := table[l]
+					borderCands = append(borderCands, id, seq.ID{MID: id.MID, RID: id.RID + 1}, seq.ID{MID: id.MID, RID: id.RID - 1})
+				}
+				cands = append(cands, borderCands...)
+			}
 			last := table[len(table)-1]
 			first := table[1]
 			cands = append(cands, last, seq.ID{MID: last.MID, RID: last.RID - 1}, seq.ID{MID: last.MID, RID: 0}, seq.ID{MID: last.MID - 1, RID: seq.RID(^uint64(0) >> 1)},
 				seq.ID{MID: first.MID, RID: first.RID + 1}, seq.ID{MID: first.MID + 1, RID: 0})
 			nq := o.Pick(12, 60)
 			if len(table) > 4096 {
-				nq = o.Pick(3, 8)
+				nq = o.Pick(6, 12)
 			}
 			for q := 0; q < nq; q++ {
-				n := 1 + r.Intn(min(len(cands), 40))
+				pool := cands
+				if len(borderCands) > 0 && q%2 == 1 {
+					pool = borderCands
+				}
+				n := 1 + r.Intn(min(len(pool), 40))
 				var ids []seq.ID
 				seen := map[seq.ID]bool{}
 				withLow := q%4 == 0 // every 4th query holds an ID below everything stored
 				for tries := 0; len(ids) < n && tries < 20*n+50; tries++ {
-					id := cands[r.Intn(len(cands))]
+					id := pool[r.Intn(len(pool))]
 					if seen[id] || (seq.Less(id, last) && !withLow) {
 						continue
 					}
@@ -1090,10 +1200,13 @@ func sealedChannels(o vh.Opts, r *vh.RNG, rep *vh.Report) (*vh.Channel, *vh.Chan
 			minS := fmtIDs(minIDs)
 			for q := 0; q < o.Pick(60, 400); q++ {
 				lid := r.Intn(len(table) + 2)
-				if len(table) > 4096 && r.Bool() { // around the block border
-					lid = 4096 - 2 + r.Intn(4)
-				}
 				id := cands[r.Intn(len(cands))]
+				if len(table) > 4096 && r.Bool() { // around the block border
+					lid = 4096 - 4 + r.Intn(10)
+					if len(borderCands) > 0 && r.Bool() {
+						id = borderCands[r.Intn(len(borderCands))]
+					}
+				}
 				res, p := frac.VerifC04LessOrEqual(dp, seq.LID(lid), id)
 				impl := "ok " + vh.B(res)
 				if p != "" {
@@ -1563,10 +1676,10 @@ func main() {
 	}
 	if run("fetch.stream") {
 		r := rng.Fork()
-		shapes := []int{0, 0, 0, 1, 1, 2, 3, 5}
+		shapes := []int{0, 0, 0, 1, 1, 2, 3, 5, 6}
 		if o.Thorough() {
 			shapes = nil
-			for sh, n := range []int{60, 20, 8, 6, 2, 12} {
+			for sh, n := range []int{60, 20, 8, 6, 2, 12, 6} {
 				for i := 0; i < n; i++ {
 					shapes = append(shapes, sh)
 				}
